@@ -206,7 +206,17 @@ func init() {
 		ut := derefType(fn.Signature.Results().At(0).Type())
 		ug, _ := in.Ghost["url:"+s.S].(*urlGhost)
 		if ug == nil {
-			in.end("unmodelled", "url.Parse of a string not built by vURL at %s", in.where())
+			// an arbitrary string: what String() gives back is the normalised spelling, an unknown function of the
+			// input that is the identity at least on strings without a space (escaping, scheme case, empty
+			// fragments are the ways the two differ; only the space is modelled as a difference)
+			if s.Const {
+				in.end("unmodelled", "url.Parse of a constant string not built by vURL at %s", in.where())
+			}
+			in.X.noteAssumption("url.Parse(s).String() for a configuration string s: an unknown function urlnorm(s), equal to s when s contains no space")
+			norm := smt.UF("urlnorm", []string{"String"}, &smt.Term{K: smt.KStr}, s)
+			in.assumeOnce(smt.Implies(smt.Not(smt.StrContains(s, smt.StrLit(" "))), smt.Eq(norm, s)))
+			ug = &urlGhost{Base: norm}
+			in.Ghost["url:"+s.S] = ug
 		}
 		if in.Choose(2) == 1 {
 			in.Ghost["choice:url.parse.fails"] = 1
